@@ -97,10 +97,31 @@ def _known(o):
     return getattr(o, "country_code", None) in oracle().table
 
 
+_SUBCLASSES = {}
+
+
+def subclasses():
+    """User-defined subclasses (module level, hence picklable): a copy of a subclass instance is an instance of that subclass."""
+    if not _SUBCLASSES:
+        import sys
+        from ..lib import BBAN, BIC, IBAN
+        mod = sys.modules[__name__]
+        for base in (IBAN, BIC, BBAN):
+            name = "My" + base.__name__
+            cls = type(name, (base,), {"__module__": __name__, "__qualname__": name})
+            setattr(mod, name, cls)
+            _SUBCLASSES[base.__name__.lower()] = cls
+    return _SUBCLASSES
+
+
 def check_copies(rec: Rec, desc, validated, origin):
     from ..lib import BBAN, BIC, IBAN
     inp = {"obj": list(desc), "validated": validated, "origin": origin}
     kind, text = desc[0], desc[1]
+    if kind.startswith("sub-"):
+        S = subclasses()
+        IBAN, BIC, BBAN = S["iban"], S["bic"], S["bban"]
+        kind = kind[4:]
     try:
         if kind == "iban":
             o = IBAN(text) if validated else IBAN(text, allow_invalid=True)
@@ -293,6 +314,10 @@ def shard_copies(arg):
         check_containers(rec, items, "container")
         rec.case("copy-container" + ("-with-sibling-country" if sib else ""), ("container", t), {"items": [list(i) for i in items[:4]]} if k == 0 else None)
         check_copies(rec, ("bban", "x1", "XX"), False, "direct")
+        if k < 2:
+            for d in (("sub-iban", t), ("sub-bban", t[4:], cc), ("sub-bic", "GENODEM1GLS")):
+                check_copies(rec, d, k == 0 and d[0] != "sub-bban", "subclass")
+                rec.case("copy-subclass", d + (cc,), {"obj": list(d)} if cc == "DE" else None)
         if k == 0:
             # degenerate objects: empty / one-character texts, empty or unknown country
             for d in (("iban", ""), ("iban", "D"), ("iban", "DE"), ("bban_of_iban", ""), ("bban_of_iban", "D"), ("bban", "", ""),
@@ -335,5 +360,5 @@ def run(ctx):
         check_cross_process(ctx.rec, descs, hs)
         ctx.rec.evals += len(descs)
     ctx.rec.sample("cross-process-object", {"objects": len(descs), "first": list(descs[0])})
-    ctx.require_classes("copy-degenerate", "cross-process-object", "copy-container", "copy-container-with-sibling-country", "pair-equal-cross-class", "pair-different", "sort-list", "copy-iban-valid", "copy-iban-unvalidated",
+    ctx.require_classes("copy-subclass", "copy-degenerate", "cross-process-object", "copy-container", "copy-container-with-sibling-country", "pair-equal-cross-class", "pair-different", "sort-list", "copy-iban-valid", "copy-iban-unvalidated",
                         "copy-bban_of_iban-valid", "copy-bban-direct", "copy-bic-valid", "copy-bic-unvalidated")
